@@ -291,17 +291,18 @@ Section Transport.
     remote_get_index budget auth c d n =
     match dlookup n d with
     | None => (IMissing, 1%N)
-    | Some DDir => (IErr, 1%N)
+    | Some DDir | Some DErr => (IErr, 1%N)
     | Some (DFile b) => match idx_decode b with Some ix => (IData ix, 1%N) | None => (IErr, 1%N) end
     end.
   Proof.
     intros Hn Ha. unfold HTTPClient.remote_get_index, HTTPServer.index_handle, index_serve.
     rewrite authorized_ok by exact Ha. unfold mk_req; cbn [r_path r_method r_body r_auth]. rewrite base_plain by exact Hn.
     cbn [index_exec]. unfold fs_open. destruct Hn as [_ [_ [-> ->]]].
-    destruct (dlookup n d) as [[b|]|]; cbn [fst].
+    destruct (dlookup n d) as [[b| |]|]; cbn [fst].
     - destruct (idx_decode b) as [ix|] eqn:E; cbn [fst]; unfold get_index.
       + rewrite get_object_eq, const_200. cbn [fst snd obj_of N.eqb Pos.eqb]. now rewrite idx_roundtrip.
       + rewrite get_object_eq, const_final by reflexivity. reflexivity.
+    - unfold get_index. rewrite get_object_eq, const_final by reflexivity. reflexivity.
     - unfold get_index. rewrite get_object_eq, const_final by reflexivity. reflexivity.
     - unfold get_index. rewrite get_object_eq, const_final by reflexivity. reflexivity.
   Qed.
@@ -310,30 +311,54 @@ Section Transport.
   Lemma index_head budget c d n auth :
     plain_name n -> authorized c auth ->
     remote_has_index budget auth c d n =
-    (match dlookup n d with Some _ => HasTrue | None => HasFalse end, 1%N).
+    (match dlookup n d with Some DErr => HasFalse | Some _ => HasTrue | None => HasFalse end, 1%N).
   Proof.
     intros Hn Ha. unfold HTTPClient.remote_has_index, HTTPServer.index_handle, index_serve.
     rewrite authorized_ok by exact Ha. unfold mk_req; cbn [r_path r_method r_body r_auth]. rewrite base_plain by exact Hn.
     cbn [index_exec]. unfold fs_open. destruct Hn as [_ [_ [-> ->]]].
-    destruct (dlookup n d) as [[b|]|]; cbn [fst]; rewrite has_chunk_eq, const_final by reflexivity; reflexivity.
+    destruct (dlookup n d) as [[b| |]|]; cbn [fst]; rewrite has_chunk_eq, const_final by reflexivity; reflexivity.
   Qed.
 
   Lemma index_put_get budget c d n auth ix :
     plain_name n -> authorized c auth -> c_writable c = true -> c_store_writable c = true ->
-    dlookup n d <> Some DDir ->
+    dlookup n d <> Some DDir -> dlookup n d <> Some DErr ->
     exists d',
       remote_store_index budget auth c d n ix = ((true, 1%N), d') /\
       remote_get_index budget auth c d' n = (IData ix, 1%N).
   Proof.
-    intros Hn Ha Hw Hsw Hnd. unfold HTTPClient.remote_store_index, HTTPServer.index_handle, index_serve.
+    intros Hn Ha Hw Hsw Hnd Hne. unfold HTTPClient.remote_store_index, HTTPServer.index_handle, index_serve.
     rewrite authorized_ok by exact Ha. unfold mk_req; cbn [r_path r_method r_body r_auth]. rewrite base_plain by exact Hn.
     rewrite Hw, Hsw, idx_roundtrip. cbn [negb index_exec]. rewrite idx_roundtrip.
     unfold fs_create. destruct Hn as [Ne [Ns [Hs Hb]]]. rewrite Hs, Hb.
-    assert (exists d', match dlookup n d with Some DDir => None | _ => Some (dupdate n (DFile (idx_encode ix)) d) end = Some d'
+    assert (exists d', match dlookup n d with Some DDir | Some DErr => None | _ => Some (dupdate n (DFile (idx_encode ix)) d) end = Some d'
                        /\ d' = dupdate n (DFile (idx_encode ix)) d) as [d' [E ->]].
-    { destruct (dlookup n d) as [[b|]|]; try (eexists; split; reflexivity). congruence. }
+    { destruct (dlookup n d) as [[b| |]|]; try (eexists; split; reflexivity); congruence. }
     rewrite E. eexists. split; [rewrite store_object_eq, const_200; reflexivity|].
     rewrite index_get by (try assumption; repeat split; assumption).
     unfold dupdate. cbn [dlookup]. rewrite beq_refl, idx_roundtrip. reflexivity.
   Qed.
+
+  (* ---------- index server in front of a remote index store ---------- *)
+  Notation proxied_get_index := (proxied_get_index index_t idx_decode idx_encode).
+  Notation get_index := (get_index index_t idx_decode).
+
+  (* what the upstream delivers arrives; every upstream FAILURE is an error for the client,
+     never "missing" ... *)
+  Lemma proxied_index budget budget_up rs_up :
+    proxied_get_index budget budget_up rs_up =
+    match fst (get_index budget_up rs_up) with
+    | IData ix => (IData ix, 1%N)
+    | IMissing => (IErr, 1%N)
+    | IErr => (IErr, 1%N)
+    end.
+  Proof.
+    unfold HTTPClient.proxied_get_index. destruct (fst (get_index budget_up rs_up)) as [ix| |]; cbn [index_get_proxied].
+    - unfold HTTPClient.get_index at 1. rewrite get_object_eq, const_200. cbn [fst snd obj_of N.eqb Pos.eqb]. now rewrite idx_roundtrip.
+    - unfold HTTPClient.get_index at 1. rewrite get_object_eq, const_final by reflexivity. reflexivity.
+    - unfold HTTPClient.get_index at 1. rewrite get_object_eq, const_final by reflexivity. reflexivity.
+  Qed.
+
+  Lemma proxied_index_never_false_missing budget budget_up rs_up :
+    fst (proxied_get_index budget budget_up rs_up) <> IMissing.
+  Proof. rewrite proxied_index. destruct (fst (get_index budget_up rs_up)); discriminate. Qed.
 End Transport.
